@@ -25,4 +25,14 @@ MCFG(m5, "chain/SET/z5/setrows/barcode/rep", Column_types::SET, false, 2, true, 
 #elif OWN_TU == 5
 MCFG(m6, "base/HEAP/z5/norows/map/swaps", Column_types::HEAP, false, 0, false, true, false, true, true, false, false, false, false)
 MCFG(m7, "RU/LIST/z5/norows/barcode/rep", Column_types::LIST, false, 1, false, true, false, false, false, false, true, true, false)
+#elif OWN_TU == 6
+// index overlays: a chain matrix addressed by position (Position_to_index_overlay), boundary-type matrices addressed by identifier (Id_to_index_overlay)
+MCFG(m8, "chain/INTRUSIVE_SET/z2/norows/map/barcode/POSITION", Column_types::INTRUSIVE_SET, true, 2, false, true, false, true, false, false, true, false, false, 1)
+MCFG(m9, "RU/SET/z5/norows/barcode/rep/IDENTIFIER", Column_types::SET, false, 1, false, true, false, false, false, false, true, true, false, 2)
+#elif OWN_TU == 7
+MCFG(m10, "RU/INTRUSIVE_LIST/z2/introws/map/barcode/vine/IDENTIFIER", Column_types::INTRUSIVE_LIST, true, 1, true, true, false, true, false, false, true, false, true, 2)
+MCFG(m11, "chain/NAIVE_VECTOR/z5/setrows-rem/barcode/rep/POSITION", Column_types::NAIVE_VECTOR, false, 2, true, false, true, false, false, false, true, true, false, 1)
+#elif OWN_TU == 8
+MCFG(m12, "chain/LIST/z2/norows/map/barcode/IDENTIFIER", Column_types::LIST, true, 2, false, true, false, true, false, false, true, false, false, 2)
+MCFG(m13, "boundary/UNORDERED_SET/z2/norows/map/barcode/IDENTIFIER", Column_types::UNORDERED_SET, true, 1, false, true, false, true, false, false, true, false, false, 2)
 #endif
